@@ -62,10 +62,15 @@ PROPS = {
         "configs": {
             "quick": [
                 ("m0", C(InitMax=0, Budget=3, MaxObjs=1, AllowTake=True, AllowRetain=True), True),
-                ("m1", C(InitMax=1, Budget=4, AllowTake=True, AllowRetain=True, AllowPanic=True), True),
-                ("m2", C(InitMax=2, Budget=3, NPost=1, AsyncPost=[1], NPc=1, Lifo=True, AllowTake=True, AllowRetain=True, AllowPanic=True), True),
+                # (mixing wait modes multiplies the state space: one mode per replayed configuration in the quick tier,
+                #  the mixed ones are in the thorough tier)
+                ("m1bl", C(InitMax=1, Budget=4, AllowTake=True, AllowRetain=True, GetModes=["bl"]), True),
+                ("m1nb", C(InitMax=1, Budget=4, AllowTake=True, AllowRetain=True, AllowPanic=True, GetModes=["nb"]), True),
+                ("m2nb", C(InitMax=2, Budget=3, NPost=1, AsyncPost=[1], NPc=1, Lifo=True, AllowTake=True, AllowRetain=True, AllowPanic=True, GetModes=["nb"]), True),
+                ("m1mix", C(InitMax=1, Budget=4, AllowTake=True, AllowRetain=True, AllowPanic=True), False),
             ],
             "thorough": [
+                ("m1q", C(InitMax=1, Budget=4, AllowTake=True, AllowRetain=True, AllowPanic=True), True),
                 ("m1", C(InitMax=1, Budget=5, AllowTake=True, AllowRetain=True, AllowPanic=True, NPre=1, AsyncPre=[1]), True),
                 ("m2", C(InitMax=2, Budget=4, NPost=1, AsyncPost=[1], NPc=1, Lifo=True, AllowTake=True, AllowRetain=True, AllowPanic=True), True),
                 ("t3m2", C(Tasks=["t1", "t2", "t3"], InitMax=2, Budget=5, MaxObjs=4, AllowTake=True, AllowPanic=True), False),
@@ -77,11 +82,15 @@ PROPS = {
         "invariants": ["Inv_C02a", "Inv_C02b", "Inv_C02c"], "actprops": [], "preds": ["C02a", "C02b", "C02c"],
         "configs": {
             "quick": [
-                ("m1", C(InitMax=1, Budget=4, GetModes=["nb", "bl"], AllowTake=True, AllowPanic=True), True),
+                ("m1bl", C(InitMax=1, Budget=4, GetModes=["bl"], AllowTake=True, AllowPanic=True), True),
+                ("m1mix", C(InitMax=1, Budget=3, GetModes=["nb", "bl"], AllowTake=True, AllowPanic=True), True),
                 ("timed", C(InitMax=1, Budget=3, GetModes=["timed", "nb"], AllowFail=False), True),
-                ("m2", C(InitMax=2, Budget=3, NPre=1, NPc=1, AsyncPc=[1], AllowTake=True, AllowRetain=True), True),
+                ("m2bl", C(InitMax=2, Budget=3, NPre=1, NPc=1, AsyncPc=[1], AllowTake=True, GetModes=["bl"]), True),
+                ("m2", C(InitMax=2, Budget=3, NPre=1, NPc=1, AsyncPc=[1], AllowTake=True, AllowRetain=True), False),
             ],
             "thorough": [
+                ("m1q", C(InitMax=1, Budget=4, GetModes=["nb", "bl"], AllowTake=True, AllowPanic=True), True),
+                ("m2q", C(InitMax=2, Budget=3, NPre=1, NPc=1, AsyncPc=[1], AllowTake=True, AllowRetain=True), True),
                 ("m1", C(InitMax=1, Budget=5, GetModes=["nb", "bl", "timed"], AllowTake=True, AllowPanic=True, NPost=1, AsyncPost=[1]), True),
                 ("m2", C(InitMax=2, Budget=4, NPre=1, NPc=1, AsyncPc=[1], AllowTake=True, AllowPanic=True, AllowRetain=True), True),
                 ("t3m2", C(Tasks=["t1", "t2", "t3"], InitMax=2, Budget=5, MaxObjs=4, AllowTake=True, AllowPanic=True), False),
@@ -119,10 +128,12 @@ PROPS = {
         "invariants": ["Inv_C06a", "Inv_C06b", "Inv_C02a", "Inv_C09b"], "actprops": ["Act_C06c"], "preds": ["C06a", "C06b", "C06c", "C02a"],
         "configs": {
             "quick": [
-                ("close", C(InitMax=1, Budget=4, AllowClose=True, ResizeTargets=[2], AllowDropPool=True, AllowSuspend=False), True),
+                ("closebl", C(InitMax=1, Budget=4, AllowClose=True, ResizeTargets=[2], AllowDropPool=True, AllowSuspend=False, GetModes=["bl"]), True),
                 ("close2", C(InitMax=2, Budget=3, AllowClose=True, AllowTake=True, AllowRetain=True, AllowCancel=False), True),
+                ("close", C(InitMax=1, Budget=4, AllowClose=True, ResizeTargets=[2], AllowDropPool=True, AllowSuspend=False), False),
             ],
             "thorough": [
+                ("closeq", C(InitMax=1, Budget=4, AllowClose=True, ResizeTargets=[2], AllowDropPool=True, AllowSuspend=False), True),
                 ("close", C(InitMax=1, Budget=5, AllowClose=True, ResizeTargets=[2], AllowDropPool=True), True),
                 ("close2", C(InitMax=2, Budget=4, AllowClose=True, AllowTake=True, AllowRetain=True, ResizeTargets=[1]), True),
             ],
@@ -132,10 +143,13 @@ PROPS = {
         "invariants": ["Inv_C07c", "Inv_C02b", "Inv_C02c"], "actprops": ["Act_C07a", "Act_C07b"], "preds": ["C07a", "C07b", "C07c", "C07d"],
         "configs": {
             "quick": [
-                ("r1", C(InitMax=1, Budget=4, ResizeTargets=[0, 2], AllowSuspend=False, AllowCancel=False), True),
+                ("r1bl", C(InitMax=1, Budget=4, ResizeTargets=[0, 2], AllowSuspend=False, AllowCancel=False, GetModes=["bl"]), True),
                 ("r2", C(InitMax=2, Budget=4, ResizeTargets=[1, 3], AllowFail=False, AllowCancel=False, GetModes=["bl"]), True),
+                ("r2f", C(InitMax=2, Budget=3, ResizeTargets=[1, 3], AllowCancel=False, GetModes=["bl"]), True),
+                ("r1", C(InitMax=1, Budget=4, ResizeTargets=[0, 2], AllowSuspend=False, AllowCancel=False), False),
             ],
             "thorough": [
+                ("r1q", C(InitMax=1, Budget=4, ResizeTargets=[0, 2], AllowSuspend=False, AllowCancel=False), True),
                 ("r1", C(InitMax=1, Budget=5, ResizeTargets=[0, 2], AllowTake=True), True),
                 ("r2", C(InitMax=2, Budget=4, ResizeTargets=[0, 1, 3], AllowRetain=True), True),
                 ("t3", C(Tasks=["t1", "t2", "t3"], InitMax=2, Budget=5, MaxObjs=4, ResizeTargets=[0, 1, 3], AllowClose=True), False),
@@ -146,7 +160,7 @@ PROPS = {
         "invariants": ["Inv_C13"], "actprops": ["Act_C08b"], "preds": ["C08a", "C08b", "C08c"],
         "configs": {
             "quick": [
-                ("fifo", C(Tasks=["t1"], InitMax=3, MaxObjs=4, Budget=7, ThreadLevel=False, AllowRetain=True, AllowSuspend=False, AllowCancel=False, GetModes=["nb"]), True),
+                ("fifo", C(Tasks=["t1"], InitMax=3, MaxObjs=4, Budget=6, ThreadLevel=False, AllowRetain=True, AllowSuspend=False, AllowCancel=False, GetModes=["nb"]), True),
                 ("lifo", C(Tasks=["t1"], InitMax=3, MaxObjs=4, Budget=7, ThreadLevel=False, AllowRetain=True, AllowSuspend=False, AllowCancel=False, GetModes=["nb"], Lifo=True), True),
                 ("shrink", C(Tasks=["t1"], InitMax=4, MaxObjs=4, Budget=7, ThreadLevel=False, ResizeTargets=[2, 3], AllowFail=False, AllowSuspend=False, AllowCancel=False, GetModes=["nb"]), True),
                 ("two", C(InitMax=3, MaxObjs=3, Budget=5, ThreadLevel=False, AllowRetain=True, AllowSuspend=False, AllowCancel=False, AllowFail=False, GetModes=["nb"]), True),
@@ -177,11 +191,14 @@ PROPS = {
         "invariants": ["Inv_C11a", "Inv_C11b"], "actprops": [], "preds": ["C11a", "C11b"],
         "configs": {
             "quick": [
-                ("m1", C(InitMax=1, Budget=4, AllowTake=True, AllowRetain=True), True),
+                ("m1", C(InitMax=1, Budget=4, AllowTake=True, AllowRetain=True, AllowSuspend=False), True),
                 ("rsz", C(InitMax=2, Budget=3, ResizeTargets=[1, 3], AllowClose=True, AllowSuspend=False, AllowCancel=False), True),
-                ("nort", C(InitMax=2, Budget=4, GetModes=["nb", "timed"], CreateTO=["none", "finite"], RecycleTO=["none", "finite"], HasRuntime=False, AllowSuspend=False, AllowCancel=False, AllowFail=False), True),
+                ("nort", C(InitMax=2, Budget=3, GetModes=["nb", "timed"], CreateTO=["none", "finite"], RecycleTO=["none", "finite"], HasRuntime=False, AllowSuspend=False, AllowCancel=False, AllowFail=False), True),
+                ("m1s", C(InitMax=1, Budget=4, AllowTake=True, AllowRetain=True), False),
             ],
             "thorough": [
+                ("m1q", C(InitMax=1, Budget=4, AllowTake=True, AllowRetain=True), True),
+                ("nort", C(InitMax=2, Budget=4, GetModes=["nb", "timed"], CreateTO=["none", "finite"], RecycleTO=["none", "finite"], HasRuntime=False, AllowSuspend=False, AllowCancel=False, AllowFail=False), True),
                 ("m1", C(InitMax=1, Budget=5, AllowTake=True, AllowRetain=True, AllowPanic=True), True),
                 ("rsz", C(InitMax=2, Budget=5, ResizeTargets=[1, 3], AllowClose=True, AllowSuspend=False, AllowCancel=False, AllowTake=True), True),
             ],
@@ -191,10 +208,14 @@ PROPS = {
         "invariants": ["Inv_C13"], "actprops": [], "preds": ["C13a", "C13b", "C13c"],
         "configs": {
             "quick": [
-                ("hooks", C(Tasks=["t1"], InitMax=2, Budget=6, NPre=1, NPost=1, NPc=1, ThreadLevel=False, AllowRetain=True), True),
-                ("thread", C(InitMax=1, Budget=4, NPost=1, AsyncPost=[1]), True),
+                ("hooks", C(Tasks=["t1"], InitMax=2, Budget=5, NPre=1, NPost=1, NPc=1, ThreadLevel=False, AllowRetain=True), True),
+                ("threadbl", C(InitMax=1, Budget=4, NPost=1, AsyncPost=[1], GetModes=["bl"]), True),
+                ("threadnb", C(InitMax=1, Budget=4, NPost=1, AsyncPost=[1], GetModes=["nb"]), True),
+                ("thread", C(InitMax=1, Budget=4, NPost=1, AsyncPost=[1]), False),
             ],
             "thorough": [
+                ("hooksq", C(Tasks=["t1"], InitMax=2, Budget=6, NPre=1, NPost=1, NPc=1, ThreadLevel=False, AllowRetain=True), True),
+                ("threadq", C(InitMax=1, Budget=4, NPost=1, AsyncPost=[1]), True),
                 ("hooks", C(InitMax=2, Budget=6, NPre=1, NPost=1, NPc=1, ThreadLevel=False, AllowRetain=True), True),
                 ("thread", C(InitMax=2, Budget=4, NPost=1, AsyncPost=[1], NPre=1), True),
             ],
